@@ -207,10 +207,10 @@ func init() {
 	})
 	register(&PropSpec{
 		ID: "C17", Level: "model_checking",
-		Rule: "explicit-state BFS over delivery orders of request / agreement / cancel, dropped replies (silent peer), virtual-time steps across the 10 min timeout and restarts at any point before the opening transaction, for both requester roles and the swap-out responder",
+		Rule: "explicit-state BFS over delivery orders of request / agreement / cancel, dropped replies (silent peer), answers of the wrong agreement type from the counterparty, virtual-time steps across the 10 min timeout and restarts at any point before the opening transaction, for both requester roles and the swap-out responder",
 		Families: func(tier string) []Family {
 			return mkFamilies(famOpt{chains: bothChain, roles: []string{"out_sender", "in_sender", "out_receiver"}, backends: []bool{false},
-				flags:  scn.Flags{Time: true, Restart: true, Drop: true, MaxTime: 3, TimeAlways: true},
+				flags:  scn.Flags{Time: true, Restart: true, Drop: true, MaxTime: 3, TimeAlways: true, Inject: true, InjectKinds: []string{"agreement_other_type"}},
 				bounds: pick(tier, mc.Bounds{MaxDepth: 6, MaxDev: 3, Budget: 60 * time.Second, NoCrash: true}, mc.Bounds{MaxDepth: 8, MaxDev: 3, Budget: 8 * time.Minute})})
 		},
 		Oracles:      []scn.Oracle{oracleC17},
@@ -218,11 +218,15 @@ func init() {
 	})
 	register(&PropSpec{
 		ID: "C22", Level: "model_checking",
-		Rule: "explicit-state BFS of both maker roles after the announcement: payment, cancel, coop_close good/bad, invalid message, CSV, restart, interleaved with virtual-time steps; the oracle is interval-agnostic (send instants of opening_tx_broadcasted form one arithmetic progression while waiting; at most one already-due copy afterwards)",
+		Rule: "explicit-state BFS of both maker roles after the announcement: payment, cancel, coop_close good/bad, invalid message, CSV, a refund broadcast that fails once or for longer than the retry budget, restart, interleaved with virtual-time steps; the oracle is interval-agnostic (send instants of opening_tx_broadcasted form one arithmetic progression while waiting; at most one already-due copy afterwards)",
 		Families: func(tier string) []Family {
 			return mkFamilies(famOpt{announced: true, chains: bothChain, roles: makers, backends: []bool{false},
 				flags:  scn.Flags{Blocks: true, Time: true, Restart: true, Drop: true, Inject: true, PayPlan: false, MaxTime: 4, MaxBlocks: 2, NoWinJump: true, TimeAlways: true},
-				bounds: pick(tier, mc.Bounds{MaxDepth: 6, MaxDev: 2, Budget: 80 * time.Second, NoCrash: true}, mc.Bounds{MaxDepth: 8, MaxDev: 3, Budget: 10 * time.Minute, NoCrash: true})})
+				bounds: pick(tier, mc.Bounds{MaxDepth: 6, MaxDev: 2, Budget: 80 * time.Second, NoCrash: true}, mc.Bounds{MaxDepth: 8, MaxDev: 3, Budget: 10 * time.Minute, NoCrash: true}),
+				tweak: func(f *Family) {
+					// the refund (or claim) broadcast may fail once, or for longer than the retry budget
+					f.Cfg.Flags.Faults = []string{f.Cfg.Chain + ".spend", f.Cfg.Chain + ".spend*25"}
+				}})
 		},
 		Oracles:      []scn.Oracle{oracleC22},
 		NeedOutcomes: []string{"State_ClaimedPreimage", "State_WaitCsv"},
